@@ -113,6 +113,11 @@ func init() {
 			redeem("B redeems gas price 2", B, chk, "pw", 0, 2),
 			redeem("A redeems B's TOKA check", A, chkTok, "pw", PayTokA, 1),
 			redeem("B redeems C's unaffordable check", B, chkPoor, "pw", 0, 1),
+			func() Tx {
+				t := send("forged: A->D 90 BIP carrying A's earlier signature", A, D.Addr, 0, e18(90), 0)
+				t.StealSig = true
+				return t
+			}(),
 			{Name: "replay last", Replay: 1},
 			{Name: "replay 2nd last", Replay: 2},
 			func() Tx { t := good; t.Name = "A send nonce+1"; t.NonceOff = 1; return t }(),
